@@ -9,6 +9,8 @@ import threading as _threading
 import time as _time
 import types
 
+from ..core import attach
+
 POLL = 50          # ticks; acquire(poll_interval=POLL * TICK)
 TICK = 0.001
 
@@ -154,20 +156,39 @@ class TimeProxy(types.ModuleType):
 
 
 _installed = [False]
+_MODULES = (_threading, _os, _fcntl, _time)
+
+
+def _attach(FL, pairs):
+    missing = attach.substitute(FL, pairs, _MODULES)
+    need = [r for r in missing if r in (_os.open, _os.close, _fcntl.flock, _time.time)]
+    if need:
+        raise attach.AttachError('aiuti.filelock references none of ' + ', '.join(
+            f'{getattr(r, "__module__", "?")}.{getattr(r, "__name__", r)}' for r in need)
+            + ' (neither directly nor through its module)')
 
 
 def install():
     import aiuti.filelock as FL
     if not _installed[0]:
-        for name in ('threading', 'os', 'fcntl', 'time'):
-            if not hasattr(FL, name):
-                raise RuntimeError(f'aiuti.filelock has no module global {name!r} to attach to')
-        FL.threading = ThreadingProxy('threading')
-        FL.os = OsProxy('os')
-        FL.fcntl = FcntlProxy('fcntl')
-        FL.time = TimeProxy('time')
+        _attach(FL, [(_threading.Lock, ThreadingProxy.Lock), (_threading.RLock, ThreadingProxy.RLock),
+                     (_os.open, OsProxy.open), (_os.close, OsProxy.close), (_fcntl.flock, FcntlProxy.flock),
+                     (_time.time, TimeProxy.time), (_time.monotonic, TimeProxy.time), (_time.sleep, TimeProxy.sleep)])
         _installed[0] = True
     return FL
+
+
+def neutralise(ob, open_fds):
+    """A lock object the run is done with: whatever attributes hold its thread lock and its descriptor (found by
+    value, not by name) are reset so that `__del__` finds nothing to release.  Returns the descriptors it held."""
+    fds = []
+    for name, v in list(vars(ob).items()):
+        if isinstance(v, (CoopLock, BatonLock)):
+            setattr(ob, name, CoopLock(False))
+        elif type(v) is int and v in open_fds and 'fd' in name.lower():
+            fds.append(v)
+            setattr(ob, name, None)
+    return fds
 
 
 # ------------------------------------------------------------------ sequential runs
@@ -296,10 +317,7 @@ def run_seq(reent, faults, ops, workdir, expand=False, ctor=None, interrupts=())
                 snap(res, t0)
     finally:
         for ob in objs:
-            ob._thread_lock = CoopLock(False)      # never let __del__ trip over a lock state
-            fd = ob._lock_file_fd
-            ob._lock_file_fd = None
-            if fd is not None and fd in env.open_fds:
+            for fd in neutralise(ob, env.open_fds):   # never let __del__ trip over a lock state or close a reused fd
                 try:
                     _os.close(fd)
                 except OSError:
@@ -507,13 +525,9 @@ class BatonTime(types.ModuleType):
 
 def install_baton():
     import aiuti.filelock as FL
-    for name in ('threading', 'os', 'fcntl', 'time'):
-        if not hasattr(FL, name):
-            raise RuntimeError(f'aiuti.filelock has no module global {name!r} to attach to')
-    FL.threading = BatonThreading('threading')
-    FL.os = BatonOs('os')
-    FL.fcntl = BatonFcntl('fcntl')
-    FL.time = BatonTime('time')
+    _attach(FL, [(_threading.Lock, BatonThreading.Lock), (_threading.RLock, BatonThreading.RLock),
+                 (_os.open, BatonOs.open), (_os.close, BatonOs.close), (_fcntl.flock, BatonFcntl.flock),
+                 (_time.time, BatonTime.time), (_time.monotonic, BatonTime.time), (_time.sleep, BatonTime.sleep)])
     _installed[0] = False        # the sequential proxies have to be re-installed before a sequential run
     return FL
 
@@ -563,7 +577,9 @@ def run_threads(scn, seed, workdir, choices=None, pct=0):
     ctor = scn.get('ctor') or [None] * len(scn['reent'])
     for i, r in enumerate(scn['reent']):
         ob = FL.FileLock(path, reentrant=r, **({} if ctor[i] is None else {'timeout': ctor[i] * TICK}))
-        ob._thread_lock.oid = i
+        for v in vars(ob).values():         # the object's thread lock, under whatever name it is kept
+            if isinstance(v, BatonLock):
+                v.oid = i
         objs.append(ob)
 
     def critical(me, hold=0):
@@ -682,9 +698,7 @@ def run_threads(scn, seed, workdir, choices=None, pct=0):
     res = dict(labels=E.labels, maxocc=E.maxocc, overlaps=E.overlaps, hung=S.hung, errors=S.errors,
                trace=S.trace, still_locked=[ob.is_locked for ob in objs])
     for ob in objs:
-        fd = ob._lock_file_fd
-        ob._lock_file_fd = None
-        ob._thread_lock = CoopLock(False)
+        neutralise(ob, E.open_fds)
     for fd in list(E.open_fds):
         try:
             _os.close(fd)
